@@ -341,6 +341,11 @@ int main(int argc, char **argv)
         sweep("gauss2", A_MF_GAUSS2, gg, 4, -6, 14, 13, 19);
         sweep("gbell", A_MF_GBELL, b1, 3, -8, 8, 21, 21);
         sweep("gbell", A_MF_GBELL, b2, 3, -4, 8, 21, 21);
+        {
+            double b3[] = {2, 1.5, 0}, b4[] = {1, 0.75, 2};   /* 2b odd / fractional: both flanks must still be in [0,1] */
+            sweep("gbell", A_MF_GBELL, b3, 3, -8, 8, 21, 21);
+            sweep("gbell", A_MF_GBELL, b4, 3, -4, 8, 21, 21);
+        }
         sweep("sig", A_MF_SIG, s1, 2, -7, 9, 41, 41);   /* increasing */
         sweep("sig", A_MF_SIG, s2, 2, -8, 8, 1, 1);     /* decreasing */
         sweep("dsig", A_MF_DSIG, d1, 4, -8, 8, 0, 0);
